@@ -21,6 +21,8 @@ pub const B_LEN: u8 = 1 << P_LEN;
 pub const B_NEXT: u8 = 1 << P_NEXT;
 
 const OPS: usize = 2;
+/// chunk size of buffered pulls (concrete)
+const BUFN: usize = 2;
 const CH: usize = 3;
 
 #[derive(Clone, Copy)]
@@ -46,14 +48,23 @@ struct Res {
 
 const R0: Res = Res { used: false, kind: 0, n: 0, some: false, begin: 0, count: 0, first: 0, last: 0, lenq: 0, no: false, bad_idx: false, bad_seq: false, bad_len: false, bad_more: false };
 
-type It = ConIterOfIter<usize, TProbe>;
-
-fn do_op(it: &It, mask: u8, nmax: usize, len: usize) -> Res {
-    let mut r = R0;
-    r.used = true;
+fn do_op<P: Iterator<Item = usize>>(it: &ConIterOfIter<usize, P>, mask: u8, nmax: usize, len: usize) -> Res {
     let op: u8 = kani::any();
     kani::assume(op < NP);
     kani::assume((mask >> op) & 1 == 1);
+    let n: usize = kani::any();
+    kani::assume(n >= 1 && n <= nmax);
+    op_with(it, mask, op, n, len)
+}
+
+/// Repeats an operation of the first pass with the same choices.
+fn redo_op<P: Iterator<Item = usize>>(it: &ConIterOfIter<usize, P>, first: &Res, mask: u8) -> Res {
+    op_with(it, mask, first.kind, first.n, 0)
+}
+
+fn op_with<P: Iterator<Item = usize>>(it: &ConIterOfIter<usize, P>, mask: u8, op: u8, n: usize, len: usize) -> Res {
+    let mut r = R0;
+    r.used = true;
     r.kind = op;
     r.first = tbmc::now();
     let on = |x: u8| (mask >> x) & 1 == 1 && op == x;
@@ -79,8 +90,6 @@ fn do_op(it: &It, mask: u8, nmax: usize, len: usize) -> Res {
             }
         }
     } else if on(P_CHUNK) {
-        let n: usize = kani::any();
-        kani::assume(n >= 1 && n <= nmax);
         r.n = n;
         match it.next_chunk(n) {
             None => {}
@@ -105,8 +114,8 @@ fn do_op(it: &It, mask: u8, nmax: usize, len: usize) -> Res {
             }
         }
     } else if on(P_BUF) {
-        let n: usize = kani::any();
-        kani::assume(n >= 1 && n <= nmax);
+        // concrete chunk size: a symbolic one makes the wrapper's buffer allocation symbolic
+        let n: usize = BUFN;
         r.n = n;
         let mut b = it.buffered_iter(n);
         match b.next() {
@@ -157,27 +166,53 @@ fn run2(mask: [u8; 2], nops: [usize; 2], lmax: usize, nmax: usize, hb: bool) {
     kani::assume(len <= lmax);
     let hint: u8 = kani::any();
     kani::assume(hint < 3);
-    let it: It = TProbe { len, hint }.into_con_iter();
+    // one iterator object per run of a thread (identical layout; in trace mode nothing is shared through
+    // the objects): the crate code is monomorphised separately for each, see tbmc::TProbeA/B/C
+    let it_a = TProbeA { len, hint }.into_con_iter();
+    let it_b = TProbeB { len, hint }.into_con_iter();
+    let it_c = TProbeC { len, hint }.into_con_iter();
     tbmc::guess_and_validate(len, hb);
     let mut res = [[R0; OPS]; 2];
-    let mut t = 0;
-    while t < 2 {
-        // only the last thread may continue on its own after the trace (then everything before it
-        // has been accepted by real code)
-        tbmc::start_thread(t, t == 1);
-        let mut o = 0;
-        while o < OPS {
-            if o < nops[t] {
-                tbmc::start_op(o as u8);
-                res[t][o] = do_op(&it, mask[t], nmax, len);
-            }
-            o += 1;
+    // pass 1, thread 0 (in-crate checks of this run are not believed: the guess is not yet accepted by thread 1)
+    tbmc::start_thread(0, false, &it_a);
+    let mut o = 0;
+    while o < OPS {
+        if o < nops[0] {
+            tbmc::start_op(o as u8);
+            res[0][o] = do_op(&it_a, mask[0], nmax, len);
         }
-        tbmc::end_thread(t);
-        t += 1;
+        o += 1;
     }
+    tbmc::end_thread(0);
+    // thread 1 = the last thread: may continue on its own after the trace; everything it meets has been accepted
+    tbmc::start_thread(1, true, &it_b);
+    let mut o = 0;
+    while o < OPS {
+        if o < nops[1] {
+            tbmc::start_op(o as u8);
+            res[1][o] = do_op(&it_b, mask[1], nmax, len);
+        }
+        o += 1;
+    }
+    tbmc::end_thread(1);
+    // pass 2, thread 0 again on the now fully accepted trace: same operations (the symbolic choices are
+    // replayed from the results of pass 1), so that its in-crate checks are exact
+    tbmc::start_thread(0, false, &it_c);
+    let mut o = 0;
+    while o < OPS {
+        if o < nops[0] {
+            tbmc::start_op(o as u8);
+            let r = redo_op(&it_c, &res[0][o], mask[0]);
+            assert!(r.some == res[0][o].some && r.begin == res[0][o].begin && r.count == res[0][o].count,
+                "harness: the second pass of thread 0 must repeat the first");
+        }
+        o += 1;
+    }
+    tbmc::end_thread(0);
     tbmc::finish();
-    core::mem::forget(it);
+    core::mem::forget(it_a);
+    core::mem::forget(it_b);
+    core::mem::forget(it_c);
 
     // ---- everything below is about a real execution --------------------------------------------
     let skip_used = (mask[0] | mask[1]) & B_SKIP != 0;
@@ -294,80 +329,80 @@ fn run2(mask: [u8; 2], nops: [usize; 2], lmax: usize, nmax: usize, hb: bool) {
 
 const U: usize = 12;
 
-// @verif family=TBMC hook=1 inrepo=replay quick=C01,C02,C04,C05,C09 timeout=900 mem=16
-// @bounds kind=ConIterOfIter<usize,TProbe> len<=2, all size hints; 2 threads x 1 next_id_and_value(); <=7 events per thread in the guessed trace + solo continuation of the last thread; all interleavings
+// @verif family=TBMC hook=1 ignorefn=TProbeA quick=C01,C02,C04,C05,C09 timeout=900 mem=16
+// @bounds kind=ConIterOfIter<usize,TProbe*> len<=2, all size hints; 2 threads x 1 next_id_and_value(); <=7 events per thread in the guessed trace + solo continuation of the last thread; all interleavings
 #[kani::proof]
 #[kani::unwind(12)]
 fn t2_single_single() {
     run2([B_SINGLE, B_SINGLE], [1, 1], 2, 2, false);
 }
 
-// @verif family=TBMC hook=1 inrepo=replay quick=C07 timeout=1200 mem=16
-// @bounds kind=ConIterOfIter<usize,TProbe> len<=2; 2 threads x 1 next_id_and_value(); <=7 events per thread + solo continuation; happens-before from the recorded memory orderings (vector clocks), ticket exclusivity
+// @verif family=TBMC hook=1 ignorefn=TProbeA quick=C07 timeout=1200 mem=16
+// @bounds kind=ConIterOfIter<usize,TProbe*> len<=2; 2 threads x 1 next_id_and_value(); <=7 events per thread + solo continuation; happens-before from the recorded memory orderings (vector clocks), ticket exclusivity
 #[kani::proof]
 #[kani::unwind(12)]
 fn t2_hb_single_single() {
     run2([B_SINGLE, B_SINGLE], [1, 1], 2, 2, true);
 }
 
-// @verif family=TBMC hook=1 inrepo=replay quick=C05,C04 thorough=C01,C09 timeout=1500 mem=16
-// @bounds kind=ConIterOfIter<usize,TProbe> len<=1; thread 0: 2 x next_id_and_value(), thread 1: 1 x next_id_and_value() (pulls after the end was reported); <=7 events per thread + solo continuation; all interleavings
+// @verif family=TBMC hook=1 ignorefn=TProbeA quick=C05,C04 thorough=C01,C09 timeout=1500 mem=16
+// @bounds kind=ConIterOfIter<usize,TProbe*> len<=1; thread 0: 2 x next_id_and_value(), thread 1: 1 x next_id_and_value() (pulls after the end was reported); <=7 events per thread + solo continuation; all interleavings
 #[kani::proof]
 #[kani::unwind(12)]
 fn t2_single2_single() {
     run2([B_SINGLE, B_SINGLE], [2, 1], 1, 2, false);
 }
 
-// @verif family=TBMC hook=1 inrepo=replay quick=C06 thorough=C01,C09 timeout=1500 mem=16
-// @bounds kind=ConIterOfIter<usize,TProbe> len<=2; thread 0: skip_to_end then has_more/try_get_len, thread 1: 2 x next_id_and_value(); <=7 events per thread + solo continuation; all interleavings
+// @verif family=TBMC hook=1 ignorefn=TProbeA quick=C06 thorough=C01,C09 timeout=1500 mem=16
+// @bounds kind=ConIterOfIter<usize,TProbe*> len<=2; thread 0: skip_to_end then has_more/try_get_len, thread 1: 2 x next_id_and_value(); <=7 events per thread + solo continuation; all interleavings
 #[kani::proof]
 #[kani::unwind(12)]
 fn t2_skip_single() {
     run2([B_SKIP | B_LEN, B_SINGLE], [2, 2], 2, 2, false);
 }
 
-// @verif family=TBMC hook=1 inrepo=replay quick=C11 thorough=C05 timeout=1500 mem=16
-// @bounds kind=ConIterOfIter<usize,TProbe> len<=2, all size hints; thread 0: 2 x has_more/try_get_len, thread 1: 2 x next_id_and_value(); <=7 events per thread + solo continuation; all interleavings
+// @verif family=TBMC hook=1 ignorefn=TProbeA quick=C11 thorough=C05 timeout=1500 mem=16
+// @bounds kind=ConIterOfIter<usize,TProbe*> len<=2, all size hints; thread 0: 2 x has_more/try_get_len, thread 1: 2 x next_id_and_value(); <=7 events per thread + solo continuation; all interleavings
 #[kani::proof]
 #[kani::unwind(12)]
 fn t2_len_single() {
     run2([B_LEN, B_SINGLE], [2, 2], 2, 2, false);
 }
 
-// @verif family=TBMC hook=1 inrepo=replay quick=C03 thorough=C01,C02,C04,C09 timeout=1800 mem=16
-// @bounds kind=ConIterOfIter<usize,TProbe> len<=2; thread 0: buffered_iter(2).next(), thread 1: next_id_and_value(); <=7 events per thread + solo continuation; all interleavings
+// @verif family=TBMC hook=1 ignorefn=TProbeA quick=C03 thorough=C01,C02,C04,C09 timeout=1800 mem=16
+// @bounds kind=ConIterOfIter<usize,TProbe*> len<=2; thread 0: buffered_iter(2).next(), thread 1: next_id_and_value(); <=7 events per thread + solo continuation; all interleavings
 #[kani::proof]
 #[kani::unwind(12)]
 fn t2_buf_single() {
     run2([B_BUF, B_SINGLE], [1, 1], 2, 2, false);
 }
 
-// @verif family=TBMC hook=1 inrepo=replay thorough=C03,C01,C02,C04,C09 timeout=2400 mem=16
-// @bounds kind=ConIterOfIter<usize,TProbe> len<=2; thread 0: next_id_and_value(), thread 1: buffered_iter(2).next() (the chunk pull is the last thread: hang detection applies to it); <=7 events per thread + solo; all interleavings
+// @verif family=TBMC hook=1 ignorefn=TProbeA thorough=C03,C01,C02,C04,C09 timeout=2400 mem=16
+// @bounds kind=ConIterOfIter<usize,TProbe*> len<=2; thread 0: next_id_and_value(), thread 1: buffered_iter(2).next() (the chunk pull is the last thread: hang detection applies to it); <=7 events per thread + solo; all interleavings
 #[kani::proof]
 #[kani::unwind(12)]
 fn t2_single_buf() {
     run2([B_SINGLE, B_BUF], [1, 1], 2, 2, false);
 }
 
-// @verif family=TBMC hook=1 inrepo=replay thorough=C03,C01,C02,C04,C09 timeout=2400 mem=16
-// @bounds kind=ConIterOfIter<usize,TProbe> len<=2; thread 0: next_chunk(n<=2) (allocates), thread 1: next_id_and_value(); <=7 events per thread + solo; all interleavings
+// @verif family=TBMC hook=1 ignorefn=TProbeA thorough=C03,C01,C02,C04,C09 timeout=2400 mem=16
+// @bounds kind=ConIterOfIter<usize,TProbe*> len<=2; thread 0: next_chunk(n<=2) (allocates), thread 1: next_id_and_value(); <=7 events per thread + solo; all interleavings
 #[kani::proof]
 #[kani::unwind(12)]
 fn t2_chunk_single() {
     run2([B_CHUNK, B_SINGLE], [1, 1], 2, 2, false);
 }
 
-// @verif family=TBMC hook=1 inrepo=replay thorough=C07 timeout=2400 mem=16
-// @bounds kind=ConIterOfIter<usize,TProbe> len<=2; thread 0: buffered_iter(2).next(), thread 1: next_id_and_value(); happens-before and exclusivity (a chunk pull uses the iterator several times inside one critical section); <=7 events per thread + solo
+// @verif family=TBMC hook=1 ignorefn=TProbeA thorough=C07 timeout=2400 mem=16
+// @bounds kind=ConIterOfIter<usize,TProbe*> len<=2; thread 0: buffered_iter(2).next(), thread 1: next_id_and_value(); happens-before and exclusivity (a chunk pull uses the iterator several times inside one critical section); <=7 events per thread + solo
 #[kani::proof]
 #[kani::unwind(12)]
 fn t2_hb_buf_single() {
     run2([B_BUF, B_SINGLE], [1, 1], 2, 2, true);
 }
 
-// @verif family=TBMC hook=1 inrepo=replay thorough=C07 timeout=2400 mem=16
-// @bounds kind=ConIterOfIter<usize,TProbe> len<=2; thread 0: next_id_and_value(), thread 1: buffered_iter(2).next(); happens-before and exclusivity; <=7 events per thread + solo
+// @verif family=TBMC hook=1 ignorefn=TProbeA thorough=C07 timeout=2400 mem=16
+// @bounds kind=ConIterOfIter<usize,TProbe*> len<=2; thread 0: next_id_and_value(), thread 1: buffered_iter(2).next(); happens-before and exclusivity; <=7 events per thread + solo
 #[kani::proof]
 #[kani::unwind(12)]
 fn t2_hb_single_buf() {
